@@ -526,6 +526,18 @@ func (x *Exec) externalCall(fr *Frame, st *State, key string, callee *ssa.Functi
 			risky = true
 		}
 	}
+	if risky && x.topFC != nil {
+		for _, pat := range x.topFC.Abstract {
+			fs := strings.Fields(pat)
+			if len(fs) >= 3 && fs[0] == "call" && fs[2] == "pure" && strings.Contains(key, fs[1]) {
+				u.Trust(fmt.Sprintf("abstracted call (assumed to leave the modelled state unchanged): %s", key))
+				risky = false
+				r := u.FreshValOrTuple("abs", rt)
+				u.assumeValExisting(st, r)
+				return r, true, nil
+			}
+		}
+	}
 	if risky {
 		u.Trust(fmt.Sprintf("external call with pointer/callback arguments and no contract: whole heap havocked: %s", key))
 		x.havocAll(st)
